@@ -391,6 +391,25 @@ func runC16(rc *RunCtx) {
 			c16EncodeBurn(rc, bm, "one-field-size")
 		}
 	}
+	// unset (nil) slice fields, one at a time and all together: an unset field is a field of length 0
+	for f := 0; f < 8; f++ {
+		m := &ref.Message{Version: 0, SrcDomain: 4, DstDomain: 1, Nonce: 7, Sender: structured(32, 0x11), Recipient: structured(32, 0x55), Caller: structured(32, 0x99), Body: structured(5, 0xc1)}
+		bm := &ref.BurnMessage{Version: 0, BurnToken: structured(32, 0x21), MintRecipient: structured(32, 0x61), Amount: big.NewInt(5), Sender: structured(32, 0xa1)}
+		if f&1 != 0 {
+			m.Sender, bm.BurnToken = nil, nil
+		}
+		if f&2 != 0 {
+			m.Recipient, bm.MintRecipient = nil, nil
+		}
+		if f&4 != 0 {
+			m.Caller, bm.Sender = nil, nil
+		}
+		if f == 0 {
+			m.Body = nil
+		}
+		c16EncodeMessage(rc, m, fmt.Sprintf("unset-fields-%d", f))
+		c16EncodeBurn(rc, bm, fmt.Sprintf("unset-fields-%d", f))
+	}
 	for _, v := range u32s {
 		for _, n := range u64s {
 			c16EncodeMessage(rc, &ref.Message{Version: v, SrcDomain: v ^ 0xa5a5a5a5, DstDomain: ^v, Nonce: n, Sender: structured(32, 1), Recipient: structured(32, 2), Caller: structured(32, 3), Body: structured(int(n%97), 4)}, "extremes")
